@@ -293,7 +293,8 @@ Definition handle_self_update (inc : N) (state : mstate) : M unit :=
         b <- attempt_rejoin ;; when (negb b) become_undead
       else
         when increase (modify (fun f => set_incarnation f (N.min (i + 1) u16_max))) ;;;
-        gossip
+        f1 <- get ;;
+        when (negb (conn_eqb (conn f1) Undead)) gossip
   | Alive => ret tt
   | Down => b <- attempt_rejoin ;; when (negb b) become_undead
   end.
@@ -595,9 +596,12 @@ Definition handle_data (data : bytes) : M unit :=
       let src := h_src h in
       sender_is_active <- apply_update (mkMember src (h_src_inc h) Alive) true ;;
       if negb sender_is_active then
+        f0 <- get ;;
+        let already_undead := conn_eqb (conn f0) Undead in
         when (message_eqb id_eqb (h_msg h) TurnUndead) (handle_self_update 0 Down) ;;;
         f <- get ;;
-        when (notify_down_members (cfg f)) (send_message src TurnUndead)
+        let pointless := already_undead && message_eqb id_eqb (h_msg h) TurnUndead in
+        when (notify_down_members (cfg f) && negb pointless) (send_message src TurnUndead)
       else
         apply_many ul true ;;;
         cres <- attempt (handle_custom_broadcasts tail (Some src)) ;;
